@@ -106,8 +106,8 @@ let derive (fs : string list) : string =
                | Ok p0 ->
                  (match x_update_ll sk rk fields v p0 with
                   | Some p1 ->
-                    Printf.sprintf "|priorll=%s|updll=%s|updlltext=%s%s" (items_s un (Deb822Parse.items p0)) (items_s un (Deb822Parse.items p1))
-                      (text_s un pl (text p1))
+                    Printf.sprintf "|priorll=%s|priorlltext=%s|updll=%s|updlltext=%s%s" (items_s un (Deb822Parse.items p0)) (hx (text p0))
+                      (items_s un (Deb822Parse.items p1)) (text_s un pl (text p1))
                       (if st.s_from then "|updllrt=" ^ rt_s st un v (x_from_ll tbl sk rk fields p1) else "")
                   | None -> "|updll=ILLTYPED")
                | Err _ -> "|priorll=ERR"
